@@ -501,6 +501,37 @@ fn finish_c03(fs: Vec<Finding>, runs: Vec<Run>, dist: Option<&mut Dist>) -> Vec<
 
 /// Clear / Reopen without commit: the instance must equal a fresh run of the committed prefix,
 /// and keep doing so while both continue with the rest of the history (up to the first Reorg).
+/// A scripted history that ends with Clear / Reopen: the instance must equal a fresh run of what its
+/// commits (and accepted reorgs) made durable, also after one more block on both.
+pub fn c03_script_eval(h: &[Op], dist: Option<&mut Dist>) -> Vec<Finding> {
+    let mut fs = Vec::new();
+    let mut l = Run::new();
+    if !l.run(h) { fs.extend(fatal_finding("c03", &l)); return fs; }
+    // (a refused call that wrote to the store marks the tracker "desynced": for a scripted history what
+    //  must be durable is known from the accepted commits and reorgs alone, so the comparison is still made)
+    let eff = l.tracker.effective_history(&l.log, None);
+    let mut p = Run::new();
+    if !p.run(&eff) { fs.extend(fatal_finding("c03:prefix", &p)); return fs; }
+    let mut u = l.universe.clone();
+    u.merge(&p.universe);
+    let d = diff_obs(&l.observe_with(&u), &p.observe_with(&u));
+    if !d.is_empty() {
+        fs.push(diff_finding("c03:script_loss", "after the scripted history (ending with clearCaches / restart) the instance differs from a fresh run of what was made durable", &d, ("lost", "prefix")));
+    } else {
+        let more = Op::Mine { n: 1, ts: 1_770_000_000 };
+        let (a, b) = (l.step(&more).status.class(), p.step(&more).status.class());
+        let d = diff_obs(&l.observe_with(&u), &p.observe_with(&u));
+        if a != b || !d.is_empty() {
+            let mut f = diff_finding("c03:script_loss_later", "equal right after the scripted history, different after one more block on both", &d, ("lost", "prefix"));
+            f.first_difference["statuses"] = json!([a, b]);
+            fs.push(f);
+        }
+    }
+    if let Some(f) = fs.last_mut() { f.first_difference["history_as_run"] = json!(l.history()); }
+    if let Some(d) = dist { d.absorb(&l); d.absorb(&p); }
+    fs
+}
+
 pub fn c03_loss_eval(h: &[Op], seed: u64, dist: Option<&mut Dist>) -> Vec<Finding> {
     let mut fs = Vec::new();
     let mut rng = Rng::new(seed ^ 0x10551055);
@@ -976,6 +1007,11 @@ pub fn corpus() -> Vec<(&'static str, &'static str, Vec<Op>)> {
             Op::Reorg(5), Op::Clear, Op::Mine { n: 1, ts: TS0 + 3 }]),
         ("store_refused_reorg_then_commit_reopen", "c05", vec![t_init(), Op::Mine { n: 20, ts: TS0 + 1 }, Op::Reorg(12), Op::Mine { n: 2, ts: TS0 + 2 },
             Op::Reorg(5), Op::Reorg(3), Op::Mine { n: 1, ts: TS0 + 3 }, Op::Commit, Op::Reopen]),
+        // clearCaches / restart = exactly the last commit, also after a reorg that only the store refused
+        ("refused_reorg_then_clear", "c03", vec![t_init(), Op::Mine { n: 3, ts: TS0 + 1 }, Op::Commit, Op::Mine { n: 11, ts: TS0 + 2 }, Op::Clear, Op::Mine { n: 1, ts: TS0 + 3 },
+            Op::Reorg(2), Op::Clear]),
+        ("refused_reorg_then_restart", "c03", vec![t_init(), Op::Mine { n: 20, ts: TS0 + 1 }, Op::Commit, Op::Reorg(12), Op::Mine { n: 2, ts: TS0 + 2 }, Op::Reorg(5), Op::Reopen]),
+        ("uncommitted_blocks_then_restart", "c03", vec![t_init(), Op::Mine { n: 4, ts: TS0 + 1 }, Op::Commit, t_deploy(TS0 + 2, "lostdi0"), t_fin(TS0 + 2), Op::Mine { n: 2, ts: TS0 + 3 }, Op::Reopen]),
         // allowance of one byte = 12000 gas < 21000: recorded, nonce not consumed; the same transaction again
         ("below_intrinsic_gas_twice", "c06", vec![t_init(), t_signed(2, 0, vec![1, 2, 3], TS0 + 1, "lowi0", 1), t_signed(2, 0, vec![1, 2, 3], TS0 + 1, "againi0", 2000), t_fin(TS0 + 1)]),
         ("below_intrinsic_gas_inscription", "c06", vec![t_init(),
@@ -1092,6 +1128,7 @@ fn worker(prop: &str, shard: u64, out: &Path, seed: u64, thorough: bool) -> Resu
             let origin = json!({"corpus": name});
             let fs = match prop {
                 "c01" => c01_eval(&h, None, true, Some(&mut dist)),
+                "c03" => c03_script_eval(&h, Some(&mut dist)),
                 "c05" => c05_eval(&h, &[], Some(&mut dist)),
                 "c06" => c06_eval(&h, Some(&mut dist)),
                 _ => vec![],
